@@ -20,13 +20,13 @@ import gen
 from common import rng_for, close, frac
 from fractions import Fraction
 
-RULE = ("option sets from VERIF_SEED: -a -b -e in {.5,1,2,3}, -p in {.5,.9}, -n in 2..4, -d in {absolute, numerical, levenshtein}, -m, -c, -k, --seed, "
+RULE = ("option sets from VERIF_SEED: -a -b -e in {.5,1,2,3}, -p in {.5,.9}, -n in 2..4, -d in {absolute, numerical, levenshtein}, -m, -c, -k, --seed (incl. 0), "
         "-s in {',', ';'}, output mode in {print, -o, -j}, 1..3 input files (csv; rttm) whose label sets are subsets of one another with 2..3 annotators x 3..5 units and numeric or word labels; "
         "non-trivial = a non-default -d, -a/-b/-e different from 1, or -m; distinct by (files, options)")
 TRUSTED_BASE = ["Coq 8.16.1 kernel (props/C20.v over the regenerated table)", "harness/gen_tables.py (AST translator, fail-closed)", "harness/{common,gen,c20}.py",
                 "argparse itself; the number formatting / parsing of print, csv and json"]
 ASSUMPTIONS = ["numbers are compared after parsing with relative tolerance 1e-6 (print shows float32 repr, csv / json show the float64 expansion)",
-               "option sets for which the API itself raises (e.g. gamma-k with a zero expected disorder) are skipped and counted"]
+               "option sets for which the API itself raises, or returns a non-finite value (gamma-k / gamma-cat with a zero expected disorder is -inf), are skipped and counted"]
 TOL = Fraction(1, 10 ** 6)
 
 
@@ -149,13 +149,13 @@ def run(rep, tier, seed, pa):
     for si in range(nsets):
         o = {"a": rng.choice([0.5, 1, 2, 3]), "b": rng.choice([0.5, 1, 2, 3]), "e": rng.choice([0.5, 1, 2]), "p": rng.choice([0.5, 0.9]),
              "n": rng.choice([2, 3, 4]), "d": rng.choice(["absolute", "numerical", "levenshtein"]), "m": rng.random() < 0.4, "c": rng.random() < 0.6,
-             "k": rng.random() < 0.5, "seed": rng.choice([None, 4772, rng.randrange(10 ** 6)]), "sep": rng.choice([",", ",", ";"]),
+             "k": rng.random() < 0.5, "seed": rng.choice([None, 0, 4772, rng.randrange(10 ** 6)]), "sep": rng.choice([",", ",", ";"]),
              "fmt": rng.choice(["csv", "csv", "rttm"]), "out": rng.choice(["print", "csv", "json"])}
         targeted = si % 4 == 3
         if targeted:     # several files with nested numeric category sets of different spreads: each file must get ITS OWN categorical dissimilarity
             o.update({"d": "numerical", "fmt": "csv", "b": rng.choice([1, 2, 3])})
         if o["seed"] is None:
-            o["seed"] = rng.randrange(10 ** 6)      # unseeded runs cannot be compared; the option itself is covered by the wiring theorem
+            o["seed"] = rng.choice([0, rng.randrange(10 ** 6)])      # unseeded runs cannot be compared; the option itself is covered by the wiring theorem
         labels = ["1", "2", "3.5", "10"] if o["d"] == "numerical" else gen.LABEL_SETS[rng.choice(["abc", "words"])]
         if o["fmt"] == "rttm":
             labels = [l for l in labels if " " not in l]
@@ -186,6 +186,12 @@ def run(rep, tier, seed, pa):
                 ref = api_reference(pa, files, o)
             except Exception as e:
                 rep.count("api_raises_skipped:" + type(e).__name__)
+                continue
+            import math
+            vals = [v for _, r in ref for x in r.values() for v in (x.values() if isinstance(x, dict) else [x])]
+            if not all(math.isfinite(v) for v in vals):
+                # a gamma-k / gamma-cat with a zero expected disorder is infinite: outside the statement (and not printable in the CSV cell)
+                rep.count("non_finite_api_value_skipped")
                 continue
             try:
                 text = run_cli(pa, argv)
